@@ -141,7 +141,12 @@ impl<'l> PktParser<'l> {
                     domainv.push(dnspkt::Label::from(self.get_bytes(prefix as usize)?));
                 }
                 offset_high if offset_high & 0b1100_0000 == 0b1100_0000 => {
-                    if depth > 10 {
+                    /* A name has at most 127 labels, and an encoder that compresses every suffix
+                     * (as ours does) writes names nested n deep as a chain of n pointers, so
+                     * that is how far a well formed message can make us go.  Anything deeper
+                     * is a loop.
+                     */
+                    if depth > 127 {
                         return Err("Compression Corruption".into());
                     }
                     // Compressed label.
